@@ -15,7 +15,8 @@ import (
 	"golang.org/x/tools/go/ssa"
 )
 
-// maxViolatingPaths: a harness stops exploring once this many paths ended in a violation.
+// maxViolatingPaths: a harness stops exploring once this many paths ended in a violation that is not
+// an instance of a listed known finding (those are expected on the unchanged tree, in any number).
 const maxViolatingPaths = 20000
 
 type workItem struct {
@@ -57,20 +58,22 @@ type PathResult struct {
 
 // Run describes one harness exploration.
 type Run struct {
-	Env       *Env
-	Harness   string // "pkgpath.FuncName"
-	Params    map[string]int
-	PBytes    map[string][]byte // byte-string parameters (automaton prefixes)
-	Fuel      int64
-	MaxPaths  int
-	Workers   int
-	MapOrder  string // "", "nondet"
-	Quiet     bool
-	PoolDrain bool // sync.Pool.Get forks on "drained by GC"
-	LockDisc  bool // lock-discipline checking of structs guarded by a mutex field
-	PanicIsOK bool // uncaught panic at top level is not a violation (harness handles it)
-	MergeOff  bool
-	TimeLimit time.Duration
+	Env           *Env
+	Harness       string // "pkgpath.FuncName"
+	Params        map[string]int
+	PBytes        map[string][]byte // byte-string parameters (automaton prefixes)
+	Fuel          int64
+	MaxPaths      int
+	Workers       int
+	MapOrder      string // "", "nondet"
+	Quiet         bool
+	PoolDrain     bool                  // sync.Pool.Get forks on "drained by GC"
+	LockDisc      bool                  // lock-discipline checking of structs guarded by a mutex field
+	IsKnown       func(*Violation) bool // instance of a listed known finding (does not count towards maxViolatingPaths)
+	newViolations int
+	PanicIsOK     bool // uncaught panic at top level is not a violation (harness handles it)
+	MergeOff      bool
+	TimeLimit     time.Duration
 
 	// results
 	mu          sync.Mutex
@@ -537,7 +540,12 @@ func (r *Run) Explore() {
 					r.Truncated = true
 					stop = true
 				}
-				if len(r.Violations) >= maxViolatingPaths && len(queue) > 0 {
+				for i := range res.Violations {
+					if r.IsKnown == nil || !r.IsKnown(&res.Violations[i]) {
+						r.newViolations++
+					}
+				}
+				if r.newViolations >= maxViolatingPaths && len(queue) > 0 {
 					// the verdict is settled; the rest of the space would only add more of the same
 					r.Truncated = true
 					stop = true
